@@ -622,6 +622,20 @@ def _run_json(case):
             ctx.add(f"C16/{cls_name}/roundtrip-rejected", f"{info}: {cls_name}(x.json) raised {_exc(res2)}")
         elif res2.json != res.json or res2.data != res.data:
             ctx.add(f"C16/{cls_name}/roundtrip-differs", f"{info}: {cls_name}(x.json) differs")
+    # one more way in: a blob object of ANOTHER blob class (larger limit) handed to this class's constructor or
+    # assigned to this property. Whatever this class ends up holding must respect ITS limit
+    from fim.slivers import json_data as _jd
+    if verdict == NON_MEMBER and case["form"] == "text":
+        for other in (_jd.MeasurementData, _jd.UserData, _jd.LayoutData):
+            if other is cls or other.MAX_SIZE <= cls.MAX_SIZE:
+                continue
+            oko, donor = _try(lambda: other(x))
+            if not oko:
+                continue            # not a value of the larger class either
+            ok3, res3 = _try(lambda: cls(donor))
+            if ok3 and res3 is not None and len(res3.json) > cls.MAX_SIZE:
+                ctx.add(f"C16/{cls_name}/nonmember-accepted/ctor-from-other-blob-class",
+                        f"{info}: {cls_name}({other.__name__}(x)) holds {len(res3.json)} characters")
     via = case["via"]
     c = dict(case)
     c["elem"] = "node"
